@@ -23,6 +23,9 @@ IsParam == [Box |-> [v |-> FALSE, id |-> TRUE], Pair |-> [k |-> FALSE, v |-> FAL
 ArgChoices == [Box |-> {<<t>> : t \in Types},
                Pair |-> {<<a, b>> : a \in {"int", "string"}, b \in {"string", "array", "U", "W"}}]
 Classes == {"Box", "Pair"}
+\* where the write is written: at its own source position, or inside a helper function shared by every
+\* instance (one write site executed for different instantiations -- anything cached per site must not decide)
+Vias == {"direct", "helper"}
 
 VARIABLES insts,   \* sequence of [cls, args]
           decl,    \* mechanism: decl[cls][member] = "T" (still generic) or the concrete type written into the shared declaration
@@ -31,19 +34,19 @@ vars == <<insts, decl, n, act>>
 
 Init == /\ insts = <<>> /\ n = 0
         /\ decl = [c \in Classes |-> [m \in DOMAIN Members[c] |-> "T"]]
-        /\ act = [op |-> "init", i |-> 0, cls |-> "", args |-> <<>>, member |-> "", kind |-> "", ok |-> TRUE, dev |-> TRUE]
+        /\ act = [op |-> "init", i |-> 0, cls |-> "", args |-> <<>>, member |-> "", kind |-> "", via |-> "", ok |-> TRUE, dev |-> TRUE]
         /\ (Emit => PrintT(<<"INIT", ToJson([insts |-> insts, decl |-> decl])>>))
 
 Instantiate(c, a) ==
   /\ Len(insts) < MaxInst /\ n < MaxOps
   /\ insts' = Append(insts, [cls |-> c, args |-> a]) /\ n' = n + 1
-  /\ act' = [op |-> "new", i |-> Len(insts) + 1, cls |-> c, args |-> a, member |-> "", kind |-> "", ok |-> TRUE, dev |-> TRUE]
+  /\ act' = [op |-> "new", i |-> Len(insts) + 1, cls |-> c, args |-> a, member |-> "", kind |-> "", via |-> "", ok |-> TRUE, dev |-> TRUE]
   /\ UNCHANGED decl
 
 \* reference acceptance of kind k in member m of instance i
 Accepts(ins, i, m, k) == k = ins[i].args[Members[ins[i].cls][m]]
 
-Write(i, m, k) ==
+Write(i, m, k, via) ==
   /\ i \in 1..Len(insts) /\ n < MaxOps /\ m \in DOMAIN Members[insts[i].cls]
   /\ LET c == insts[i].cls
          own == insts[i].args[Members[c][m]]
@@ -52,12 +55,12 @@ Write(i, m, k) ==
                ELSE IF decl[c][m] = "T" THEN [decl EXCEPT ![c][m] = own] ELSE decl
          devOk == IF IsParam[c][m] THEN TRUE ELSE k = d1[c][m]
      IN /\ decl' = d1
-        /\ act' = [op |-> "write", i |-> i, cls |-> c, args |-> insts[i].args, member |-> m, kind |-> k,
+        /\ act' = [op |-> "write", i |-> i, cls |-> c, args |-> insts[i].args, member |-> m, kind |-> k, via |-> via,
                    ok |-> (k = own), dev |-> devOk]
   /\ n' = n + 1 /\ UNCHANGED insts
 
 Next == \/ \E c \in Classes : \E a \in ArgChoices[c] : Instantiate(c, a)
-        \/ \E i \in 1..MaxInst, m \in {"v", "id", "k", "setv"}, k \in Kinds : Write(i, m, k)
+        \/ \E i \in 1..MaxInst, m \in {"v", "id", "k", "setv"}, k \in Kinds, via \in Vias : Write(i, m, k, via)
 Spec == Init /\ [][Next]_vars
 
 St  == [insts |-> insts, decl |-> decl]
